@@ -13,7 +13,7 @@ def handle : List Sexp → Option Sexp
       let g := analyse (← parseSpec spec)
       let dec ← parseDecider dec
       if !deciderValid g dec then pure (list [atom "err", atom "library"]) else
-      pure (resSx valSx (randomTree g dec bigFuel (mkSt (← draws.asNats?))))
+      pure (resSx valSx (randomTree g dec bigFuel (mkSynSt (← draws.asNats?))))
   | [atom "prop_wt", spec, v] => do
       let g := analyse (← parseSpec spec)
       pure (ofBool (wt g [] (.cls g.spec.start) (← parseVal v)))
